@@ -90,8 +90,8 @@ func NewByteWrap[T any](v T) *ByteWrap[T] { return &ByteWrap[T]{Val: v} }
 func (b ByteWrap[T]) MarshalCBORStream(w io.Writer, o EncoderOptions, flattened int) error {
 	enc := NewEncoder(w)
 	enc.EncoderOptions = o
-	if bs, ok := any(b.Val).([]byte); ok {
-		return enc.Encode(bs)
+	if bs, ok := any(&b.Val).(*[]byte); ok {
+		return enc.Encode(*bs)
 	}
 	return enc.Encode(Bstr[T](b))
 }
